@@ -124,6 +124,15 @@ pub fn run_history(h: &History, letters: Option<&[Letter]>, owned: &Owned, prop_
                     ("es", J::u(obs.eids.1 as u64)),
                 ]));
             }
+            // a store through one half's accessor: C13 speaks of "the EID" and of "a value since stored
+            // directly through an accessor"; whether the other half sees that store is not fixed, so
+            // both outcomes are accepted and the model follows the context
+            if let Op::AccReq(v) | Op::AccResp(v) = op {
+                if obs.eids == (*v, *v) && (models[ci].req_eid, models[ci].resp_eid) != (*v, *v) {
+                    models[ci].resync(obs.eids);
+                    rep.class("accessor-store-visible-through-both-halves:model-follows");
+                }
+            }
             if exp == Some(Expect::Resync) {
                 models[ci].resync(obs.eids);
                 rep.class("assignment-of-eid-0x00-or-0xff:unjudged,model-resynchronised");
